@@ -151,7 +151,18 @@ def replay(ctx, payload):
 
 
 MANIFEST = {
-	'level_text': 'filled by bin/mkmanifest',
-	'level_note': 'placeholder',
+	'level_text': (
+		"Layout theorems for every schema, struct and object (Properties/C02.lean): the encoding is the concatenation of the members' bytes in declared "
+		"(expanded) order; integer members have their declared width, little-endian, two's complement, and out-of-range values are refused; count, byte-size, "
+		'sizeof, size-prefix and sizeref members carry the quantity they measure; reserved members are written at, and only accepted at, their constants; '
+		'aligned elements start at multiples of the alignment with minimal zero padding (last element per pad_last); conditional members contribute bytes '
+		'exactly when their condition holds. The IR the theorems speak about is re-read from the schema TEXT on every run by an independent reader that is '
+		'cross-checked member by member against catparser; the interpreter and the codecs are compared byte for byte (first differing offset reported) and '
+		"to_json() renderings are compared with the model's."
+	),
+	'level_note': (
+		'Trusted: Lean kernel + standard axioms; hand-written interpreter tied by differential execution; translate/cats.py; str() renderings are not modelled '
+		'(to_json is, by execution only - no theorem about the rendering).'
+	),
 	'technique': 'Lean 4 layout theorems over a schema-indexed codec interpreter + byte-for-byte differential with the generated Python codecs',
 }
